@@ -1,5 +1,6 @@
 import LZ4V.Judge.Rec
 import LZ4V.Judge.Block
+import LZ4V.Judge.Decode
 import Std.Data.HashMap
 /-!
 `lz4vmodel judge <casefile> <faildir>` : walk the case records written by a harness, run the specification / model
@@ -8,9 +9,11 @@ distribution lines and a final `DONE records=<n> fails=<k>`.  Exit status 0 iff 
 -/
 open LZ4V.Judge
 
-def dispatch (r : Rec) : Verdict :=
+def dispatch (blobs : Std.HashMap Nat ByteArray) (r : Rec) : Verdict :=
   match r.op with
   | 1 => judgeBlock r
+  | 2 => judgeDecode blobs r
+  | 100 => {}
   | _ => { fails := [("unknown_op", s!"op={r.op}")] }
 
 def bump (m : Std.HashMap String Nat) (k : String) : Std.HashMap String Nat := m.insert k (m.getD k 0 + 1)
@@ -23,13 +26,15 @@ def judgeFile (path faildir : String) : IO UInt32 := do
   let mut tags : Std.HashMap String Nat := {}
   let mut sigs : Std.HashMap String Nat := {}
   let mut going := true
+  let mut blobs : Std.HashMap Nat ByteArray := {}
   while going do
     match readRec b pos with
     | none => going := false
     | some r =>
       n := n + 1
       pos := r.stop
-      let v := dispatch r
+      if r.op == 100 then blobs := blobs.insert (r.nat 0) (r.bytes 1)
+      let v := dispatch blobs r
       if n % 997 == 3 && n < 6000 then
         let descr := r.args.toList.map (fun a => if a.size == 8 then s!"int {argInt a}" else s!"bytes({a.size})={hex a 24}")
         IO.println s!"SAMPLE op={r.op} case={r.id} tags={v.tags} args={descr}"
